@@ -347,6 +347,9 @@ mod has_more;
 /// Module defining concurrent iterator traits and implementations.
 pub mod iter;
 mod next;
+/// Verification hook: reporting atomics (only with `--cfg orx_concurrent_iter_verif`).
+#[cfg(orx_concurrent_iter_verif)]
+pub mod verif_shim;
 
 pub use has_more::HasMore;
 pub use iter::atomic_counter::AtomicCounter;
